@@ -100,6 +100,22 @@ class Ctx(object):
         self._wit[hint] = v
         return v
 
+    def witness_scalar(self, hint, kind='int'):
+        """Existential scalar witness: the implementation's local `hint` while verifying the body,
+        a fresh constant at call sites."""
+        key = ('scalar', hint)
+        if key in self._wit:
+            return self._wit[key]
+        v = None
+        if self.mode == 'verify':
+            cand = self.st.env.get(hint)
+            if isinstance(cand, Sc) or (isinstance(cand, int) and not isinstance(cand, bool)):
+                v = cand
+        if v is None:
+            v = Sc(fresh_int('wit_' + hint)) if kind == 'int' else Sc(fresh_real('wit_' + hint))
+        self._wit[key] = v
+        return v
+
     # --- symbols
     def real(self, name):
         return Sc(z3.Real(name))
